@@ -4,11 +4,13 @@ Runtime monitor on the real gama-local binary (ASan/UBSan build, trace hooks on)
 determined network (netgen; 1D/2D/3D; all approximate coordinates given, so the linearisation point is known)
 gets defects injected whose consequences are known by construction:
 
-  isolated points, targets with one determining element (single direction / distance / slope distance),
-  points without coordinates that cannot be computed, stations with a single direction (also two directions
-  to one target, or a second target that is unusable), passive clusters, weak intersections (indeterminable
-  coordinates), and blunders planted at tol-abs*(1 +- 1e-6), (1 +- 1e-2) and far on both sides for every kind
-  of observation, tol-abs in {10, 1000, 1e5}.
+  isolated points (with / without coordinates), targets with one determining element (single direction,
+  distance, slope distance), targets without coordinates that cannot be computed, stations with a single
+  direction (also two directions to one target, or a second target that is unusable), passive clusters,
+  heights no observation touches, floating pairs (1D, fixed datum), weak intersections (a priori stdev ~ 100 m:
+  'indeterminable'), borderline intersections (a priori stdev within 15 % of gama's 10 m limit: removal not
+  predicted, exercised for safety / visibility / deletion), and blunders planted at tol-abs*(1 +- 1e-6),
+  (1 +- 1e-2) and far on both sides on every kind of observation, tol-abs in {10, 1000, 1e5}.
 
 Three sources are compared per run:  (E) what must be excluded by construction / by the independent
 recomputation of the positional misclosures,  (H) what gama did (hooks rm_point, rm_obs_abs_term, revision_obs),
@@ -24,6 +26,20 @@ Specification of the positional misclosure (manual, 'Gross absolute terms'; prop
   the target; the band between mark-to-mark and instrument-to-target length is not judged).
 Nothing here is taken from gama's code: the misclosures come from netgen.model_value at the approximate
 coordinates written to the input and the approximate orientation reported by the `adjust` hook.
+
+Violation keys (stable):
+  invisible:point:<reason code> | invisible:point:unreported-<xy|z> | invisible:obs:abs-term:<kind> |
+  invisible:obs:abs-term-note | invisible:obs:xml-list | phantom:<what> | count-mismatch:<which count> |
+  abs-term-rule:<kind>:<excluded-below|kept-above> | abs-term-value:<kind> | reason:point:<code>:<expected> |
+  unexpected-exclusion:point:<code> | missing-exclusion:point:<defects> | exclusion-set:observations |
+  deletion:<field> | further-exclusion-after-deletion | algorithm-dependent-exclusion:<defect kinds> |
+  not-adjusted:<defect kinds>:<outcome> | gama-local:<sanitizer key>.
+A deviation from the decision rule that a *known* defect explains is named after it, so that any other deviation
+keeps the plain key:  abs-term-rule:homogenized-rhs:<kind>:<side> / abs-term-value:homogenized-rhs:<kind>
+(remove_huge_abs_terms() tests angular terms multiplied by sigma-apr/stdev), ...:correlated-cluster:... (the same
+inside a cluster with a non-diagonal covariance matrix: terms mixed by the Cholesky factor), ...:left-arm:angle:...
+(only the left arm of an angle is used), phantom:outlying-terms-(note|section):homogenized-rhs (section announced
+on the raw terms, nothing listed or removed on the homogenised ones).
 """
 import json
 import math
@@ -63,9 +79,17 @@ RM_CODE = {0: ("xyz", "missing"), 1: ("xy", "missing"), 2: ("z", "missing"), 3: 
 RM_NAME = {0: "missing-xyz", 1: "missing-xy", 2: "missing-z", 3: "singular-xy", 4: "singular-z",
            5: "huge-cov-xyz", 6: "huge-cov-xy", 7: "huge-cov-z"}
 
-ILL_POSED = {"floating-pair", "floating-pair-without-heights", "weak-intersection"}
+ILL_POSED = {"floating-pair", "floating-pair-without-heights", "weak-intersection", "borderline-intersection"}
 FACTORS_NEAR = (1 - 1e-6, 1 + 1e-6, 1 - 1e-2, 1 + 1e-2)
 FACTORS_FAR = (0.3, 0.7, 1.5, 3.0, 10.0)
+
+
+def defect_of(info, pid):
+    """the injected defect a point belongs to (points of the k-th injection are named D<k>...), 'base' otherwise"""
+    m = re.match(r"D(\d+)", pid)
+    if m and int(m.group(1)) <= len(info["defects"]):
+        return info["defects"][int(m.group(1)) - 1]
+    return "base"
 
 
 def side_of(f):
@@ -353,7 +377,7 @@ def design(net, items, active, P):
     return J, lab
 
 
-def determinacy(net, items, active, P, all_cols=None):
+def determinacy(net, items, active, P):
     """-> (rank, n columns, {label: apriori stdev in mm (inf if undetermined)}) of the system of active observations"""
     J, lab = design(net, items, active, P)
     if J.size == 0:
@@ -366,7 +390,6 @@ def determinacy(net, items, active, P, all_cols=None):
     Q = (Vt.T * inv ** 2) @ Vt
     null = Vt[rank:] if rank < len(lab) else np.zeros((0, len(lab)))
     # columns with a component in the null space are undetermined
-    extra = np.zeros(len(lab))
     if J.shape[0] < J.shape[1]:
         # svd with full_matrices=False hides part of the null space; recompute fully
         U, s2, Vt2 = np.linalg.svd(J, full_matrices=True)
@@ -379,7 +402,7 @@ def determinacy(net, items, active, P, all_cols=None):
 
 # ---------------------------------------------------------------------------- case generation
 
-NEEDS_FIXED = ("weak-intersection", "floating-pair")
+NEEDS_FIXED = ("weak-intersection", "borderline-intersection", "floating-pair")
 
 
 def gen_case(seed, i):
@@ -488,7 +511,7 @@ def defect_menu(dim):
         return ["isolated", "isolated-nocoord", "passive-cluster", "floating-pair", "isolated", "isolated-nocoord"]
     m = ["isolated", "isolated-nocoord", "single-direction-target", "single-distance-target",
          "uncomputable-target", "single-direction-station", "duplicate-direction-station",
-         "station-second-target-unusable", "passive-cluster", "weak-intersection"]
+         "station-second-target-unusable", "passive-cluster", "weak-intersection", "borderline-intersection"]
     if dim == 3:
         m += ["single-slope-target", "unobserved-height"]
     return m
@@ -671,7 +694,7 @@ def inj_floating_pair(rng, net, info, name):
     info["defects"].append("floating-pair")
 
 
-def inj_weak_intersection(rng, net, info, name):
+def inj_weak_intersection(rng, net, info, name, borderline=False):
     """a new point intersected by two low-precision directions from two base stations under a very acute angle:
     determined, but with an a priori standard deviation of hundreds of metres (documented: 'indeterminable')"""
     sts = _stations(net, info["base"])
@@ -701,17 +724,25 @@ def inj_weak_intersection(rng, net, info, name):
         rows.append([(q.N - s.N) / dd / dd * CC / 1000.0, -(q.E - s.E) / dd / dd * CC / 1000.0])
     J = np.array(rows)
     pred1 = float(np.sqrt(np.max(np.diag(np.linalg.inv(J.T @ J)))))      # for stdev 1 cc
-    sdw = min(1000.0, max(sd, float(round(1e5 / pred1))))
-    pred = pred1 * sdw
-    if pred < 3e4:
-        return inj_isolated(rng, net, info, name)
+    if borderline:
+        # a priori standard deviation within 15 % of gama's limit (10 m): whether the point is removed, and in which
+        # linearisation iteration, is not predicted; everything else (visibility, deletion, safety) is judged
+        sdw = min(1000.0, max(1.0, float(1e4 * rng.uniform(0.85, 1.15) / pred1)))
+        pred = pred1 * sdw
+        if not 0.8e4 < pred < 1.2e4:
+            return inj_isolated(rng, net, info, name)
+    else:
+        sdw = min(1000.0, max(sd, float(round(1e5 / pred1))))
+        pred = pred1 * sdw
+        if pred < 3e4:
+            return inj_isolated(rng, net, info, name)
     sd = sdw
     info["notes"].append("weak intersection: predicted a priori stdev %.3g mm (eps %.2g)" % (pred, eps))
     net.points[name] = q
     _add_obs(net, c1, "direction", c1.station, name, sd)
     _add_obs(net, c2, "direction", c2.station, name, sd)
-    info["exp_points"][(name, "xy")] = "indeterminable"
-    info["defects"].append("weak-intersection")
+    info["exp_points"][(name, "xy")] = "maybe" if borderline else "indeterminable"
+    info["defects"].append("borderline-intersection" if borderline else "weak-intersection")
 
 
 INJECT = {
@@ -729,6 +760,7 @@ INJECT = {
     "passive-cluster": inj_passive_cluster,
     "floating-pair": inj_floating_pair,
     "weak-intersection": inj_weak_intersection,
+    "borderline-intersection": lambda r, n, f, nm: inj_weak_intersection(r, n, f, nm, True),
 }
 
 # observed coordinates cannot carry a blunder relative to the approximate coordinates: they *are* the
@@ -1086,11 +1118,6 @@ def evaluate(ck, net, info, items, alg, g, txt, wit):
                 if given and abs(mine - u["approx"]) > 1e-9 * max(1.0, abs(mine)):
                     ck.inconc("approximate coordinate in the hook differs from the input")
                     return None
-    stations = {}
-    for cl in net.clusters:
-        if cl.kind == "obs" and any(o.kind == "direction" for o in cl.obs):
-            stations[cl.station] = stations.get(cl.station, 0) + 1
-
     # ---- (E) expected exclusions
     hook_removed = S.removed_components()
     hook_missing = {(pid, c) for pid, code in S.rm_points if RM_CODE[code][1] == "missing"
@@ -1104,7 +1131,7 @@ def evaluate(ck, net, info, items, alg, g, txt, wit):
     # the hook's observations -> items, by (type, from, to) and the raw absolute term
     bval = {}
     for it in items:
-        bval[it.n] = misclosure(net, it, P, _ori_for(it, ori, dup_station, stations))
+        bval[it.n] = misclosure(net, it, P, _ori_for(it, ori, dup_station))
     hook_abs_items = set()
     for e in S.abs:
         k = (cxx_type(e["type"]), e["from"], e["to"])
@@ -1149,8 +1176,8 @@ def evaluate(ck, net, info, items, alg, g, txt, wit):
         else:
             m_left = m_hom = m_hom_left = m
         flagged_raw = flagged_raw or m_left > tol or m > tol
-        any_hom[0] = any_hom[0] or (m_hom is not None and m_hom > tol)
-        any_hom[1] = any_hom[1] or (m_hom_left is not None and m_hom_left > tol)
+        any_hom[0] = any_hom[0] or (m_hom is not None and m_hom > tol * (1 + 1e-9))
+        any_hom[1] = any_hom[1] or (m_hom_left is not None and m_hom_left > tol * (1 + 1e-9))
         e = next((e for e in S.abs if e.get("_item") == it.n), None)
         if e is not None:
             # value of the absolute term the hook saw vs the independent one
@@ -1193,7 +1220,8 @@ def evaluate(ck, net, info, items, alg, g, txt, wit):
             fam = ""
             if it.kind in ANGULAR:
                 def dec(v):
-                    return v is not None and abs(v - tol) > 1e-9 * tol and (v > tol) == excluded
+                    # (a value within rounding of tol-abs explains either decision)
+                    return v is not None and (abs(v - tol) <= 1e-9 * tol or (v > tol) == excluded)
                 hom = "correlated-cluster" if it.ci in corr else "homogenized-rhs"
                 if dec(m_hom):
                     fam = hom + ":"
@@ -1230,7 +1258,9 @@ def evaluate(ck, net, info, items, alg, g, txt, wit):
     silently = []
     for (pid, comp) in sorted(exp_pts - hook_removed):
         adj = {k.lower() for k in R["adjusted"].get(pid, {})}
-        if ("x" in adj) if comp == "xy" else ("z" in adj):
+        if info["exp_points"][(pid, comp)] == "maybe" and (("x" in adj) if comp == "xy" else ("z" in adj)):
+            ck.count("borderline point kept")
+        elif ("x" in adj) if comp == "xy" else ("z" in adj):
             ck.violation("missing-exclusion:point:%s" % "+".join(sorted(set(info["defects"]))),
                          "%s of point %s is %s by construction but was adjusted [%s]%s" % (
                              comp, pid, info["exp_points"][(pid, comp)], alg,
@@ -1246,7 +1276,7 @@ def evaluate(ck, net, info, items, alg, g, txt, wit):
                 continue
             ck.cls(("point", "%dd" % info["dim"], want, RM_NAME[code], alg))
             ck.count("point/expected %s/removed as %s" % (want, RM_NAME[code]))
-            if want != "any" and (want == "missing") != (word == "missing"):
+            if want not in ("any", "maybe") and (want == "missing") != (word == "missing"):
                 ck.violation("reason:point:%s:%s" % (RM_NAME[code], want),
                              "point %s %s: coordinates %s in the input, removed as '%s'" % (
                                  pid, c, "not given and not computable" if want == "missing" else "given", RM_NAME[code]),
@@ -1427,7 +1457,7 @@ def base_weakened(net, items, info, P, passive_keys, abs_items):
     return any(v > 1e3 for v in r1[2].values())
 
 
-def _ori_for(it, ori, dup_station, stations):
+def _ori_for(it, ori, dup_station):
     if it.kind != "direction":
         return None
     if it.frm in dup_station:
@@ -1498,6 +1528,7 @@ def run(tier, seed, only=None):
         for i in idx:
             net, info, txt, items = cases[i]
             per_alg = {}
+            crashed = False
             for alg in ALGS:
                 g = res[(i, alg)]
                 wit = dict(seed=seed, index=i, alg=alg, kind=net.kind, tol_abs=info["tol"], defects=info["defects"],
@@ -1505,10 +1536,12 @@ def run(tier, seed, only=None):
                            expected_points=sorted("%s:%s:%s" % (k[0], k[1], v) for k, v in info["exp_points"].items()),
                            cmd="gama-local in.gkf --algorithm %s --language en --text out.txt --xml out.xml" % alg,
                            input=txt if len(ck.violations) < 12 else None)
-                if ck.sanitizer(g.rr, wit, prefix="gama-local:"):
+                if ck.sanitizer(g.rr, dict(wit, input=txt), prefix="gama-local:"):
+                    crashed = True
                     continue
                 if g.rr.timeout:
                     ck.inconc("timeout")
+                    crashed = True
                     continue
                 per_alg[alg] = (evaluate(ck, net, info, items, alg, g, txt, wit), wit)
             # the four algorithms exclude the same items (the reason code may differ between 'singular' and
@@ -1522,7 +1555,16 @@ def run(tier, seed, only=None):
                     sigc.setdefault(ex["points"], []).append(alg)
             ill = sorted(set(info["defects"]) & ILL_POSED)
             dk = "+".join(ill or sorted(set(info["defects"]))) or "blunders-only"
-            if len(sig) > 1:
+            if crashed:
+                ck.count("networks with a sanitizer report / timeout (comparison between algorithms skipped)")
+            elif len(sig) > 1:
+                # name the disagreement after the injected defects the disputed points belong to
+                sets = [set(s[0]) for s in sig if not isinstance(s, str)]
+                if len(sets) > 1:
+                    disputed = set.union(*sets) - set.intersection(*sets)
+                    kinds = sorted({defect_of(info, pid) for pid, _ in disputed})
+                    if kinds:
+                        dk = "+".join(kinds)
                 ck.violation("algorithm-dependent-exclusion:%s" % dk,
                              "the algorithms exclude different items for the same input (%s): %s" % (
                                  "+".join(sorted(set(info["defects"]))) or "blunders only",
